@@ -237,7 +237,10 @@ func (m *tableMon) judgeAction(j *judgedAction, err error, who string) {
 		if isWager(j.action) {
 			// C02: the accepted action changed exactly the caller's entry of the hand
 			c.Judged("C02.action_attribution")
-			if j.lastSrc != j.idx || (j.lastType != j.action && j.lastType != "allin") {
+			// (the rule engine records a raise to exactly the current wager as a call, and a raise / bet
+			// the stack cannot cover as an all-in)
+			downgraded := j.lastType == "allin" || (j.action == "raise" && j.lastType == "call")
+			if j.lastSrc != j.idx || (j.lastType != j.action && !downgraded) {
 				c.Viol("C02", "C02.action_wrong_entry", nil, "accepted %s %s for entry %d: the hand's last action is %q by entry %d", j.id, j.action, j.idx, j.lastType, j.lastSrc)
 			}
 		}
@@ -368,8 +371,12 @@ func (m *tableMon) memberBefore() *memberSnap {
 // topupInvoke registers a buy-in / re-buy / add-on as in flight (its effect may become visible in
 // snapshots published before the call returns).
 func (m *tableMon) topupInvoke(id string, amt int64) {
-	m.pendingTopup = &topup{id: id, amt: amt, invokeSeq: m.c.Seq(), atMs: m.c.NowMs()}
-	m.topups = append(m.topups, m.pendingTopup)
+	if m.pendingTopup == nil {
+		m.pendingTopup = map[string]*topup{}
+	}
+	tu := &topup{id: id, amt: amt, invokeSeq: m.c.Seq(), atMs: m.c.NowMs()}
+	m.pendingTopup[simrt.CurName()] = tu
+	m.topups = append(m.topups, tu)
 }
 
 func (m *tableMon) memberAfter(kind string, before, after *memberSnap, atomic bool, err error, joins []pt.JoinPlayer, leaves []string) {
@@ -381,8 +388,8 @@ func (m *tableMon) memberAfter(kind string, before, after *memberSnap, atomic bo
 		// the call had to wait for the engine lock: before/after are not a before/after picture of it
 		c.Inconc("not_atomic")
 	}
-	tu := m.pendingTopup
-	m.pendingTopup = nil
+	tu := m.pendingTopup[simrt.CurName()]
+	delete(m.pendingTopup, simrt.CurName())
 	if tu != nil && (kind == "reserve" || kind == "redeem") {
 		if err != nil || !before.ids[tu.id] {
 			// refused, or a first buy-in (not a top-up of an existing bankroll): forget it
@@ -783,7 +790,15 @@ func (m *tableMon) checkEnginePanics(tb *pt.Table) {
 		}
 		h := m.cur
 		inHand := h != nil && h.settled == nil
-		facts := map[string]any{"in": fn, "dealt_in_player_left_mid_hand": inHand && h.leftMidHand, "external_pause_or_close_request": m.extTainted != ""}
+		left := inHand && h.leftMidHand
+		if inHand {
+			for _, id := range h.roster {
+				if m.leavers[id] { // departure requested (possibly still in flight)
+					left = true
+				}
+			}
+		}
+		facts := map[string]any{"in": fn, "dealt_in_player_left_mid_hand": left, "external_pause_or_close_request": m.extTainted != ""}
 		c.Logf("ENGINE PANIC in %s (task %s): %s", fn, p.Task, p.Value)
 		if inHand {
 			c.Viol("C11", "C11.engine_goroutine_panicked", facts, "hand %d in progress: the engine goroutine %s panicked in %s: %s (a process crash in a deployment: the hand cannot finish)", h.k, p.Task, fn, p.Value)
